@@ -163,6 +163,39 @@ Theorem C02_pin_lexer_sentinel :
   lexer_leading_blank_pattern = pinned_lexer_leading_blank_pattern.
 Proof. exact (conj pin_lexer_sentinel_guard (conj pin_lexer_sentinel_pos pin_lexer_leading_blank_pattern)). Qed.
 
+(* core4 = core3 + NESTED LISTS (any depth up to the parser's bracket limit, in the inline and the multi-line layout exactly
+   as the emitter lays them out) + INLINE-MAP items K::v with scalar or list values, in assignment position and in META:
+   parser half at every depth; any text whose model-lexer tokens have the shape of a core4 document is read as that
+   document (the executable shape check is run by the harness on every generated core4 document).  The warning class
+   is {5,6,7,9}: the emitter always quotes PATTERN / REGEX values, which the reader reports as constructor_misuse (7),
+   and a list opened at bracket depth >= 5 is reported as deep_nesting (6); the content is unaffected. *)
+From OV Require Rt.TokRound4 Rt.TokRound4Ex.
+Theorem C02_core4_readback_all_depths :
+  forall numcanon holo_ok strict sp alpha ml idnum (qa : str -> str -> BareWordParse.strk) (qi : str -> BareWordParse.strk),
+    (forall k s, qa k s = BareWordParse.QIdent -> has_annotation s = false) ->
+    (forall s, qi s = BareWordParse.QIdent -> has_annotation s = false) ->
+    forall d, TokRound4.core4_doc d = true -> TokRound4.nums_ok4_l numcanon idnum (dsections d) ->
+    Forall (TokRound4.field_num_ok4 numcanon idnum) (dmeta d) ->
+    forall st0 ts tail, tail <> [] -> pbdepth st0 = 0%N -> Forall2 tmatch ts (TokRound4.doc4_sh ml idnum qa qi d) -> ptoks st0 = ts ++ tail ->
+    exists st', parse_document numcanon holo_ok strict sp alpha st0 = POk d st' /\ TokRound4.wext4b st0 st'.
+Proof. exact TokRound4.parse_core4_doc. Qed.
+
+Theorem C02_core4_shape_check_sound :
+  forall cls numcanon holo_ok strict d text,
+    TokRound4Ex.core4_shape_check cls d (lines_of text) = 1%N ->
+    TokRound4.nums_ok4_l numcanon TokRound2Ex.ex_idnum (dsections d) ->
+    Forall (TokRound4.field_num_ok4 numcanon TokRound2Ex.ex_idnum) (dmeta d) ->
+    strip_frontmatter (u_space cls) (lines_of text) = (lines_of text, None) ->
+    exists warns, parse_model cls numcanon holo_ok strict (lines_of text) = PRDoc d [] warns /\ Forall TokRound4.advisory4 warns.
+Proof. exact TokRound4Ex.core4_shape_check_sound. Qed.
+
+(* a multi-pair inline map, an empty map, a map in value position, a map inside a map value, 100 nested lists ... are
+   outside core4: each is read as something else (Rt/TokRound4Ex.v) *)
+Theorem C02_core4_full_refuted : ~ TokRound4Ex.parse_core4_concl TokRound4Ex.r_multi.
+Proof. exact TokRound4Ex.core4_full_refuted. Qed.
+Theorem C02_core4_nonvacuous : TokRound4.core4_doc TokRound4Ex.ex4 = true /\ TokRound4Ex.rt4 TokRound4Ex.ex4 [7%N; 7%N; 7%N].
+Proof. exact (conj TokRound4Ex.ex4_core TokRound4Ex.ex4_roundtrip). Qed.
+
 (* ---- source-text pins (generated by harness/pinsets.py) ---- *)
 (* every function of these modules is, text for text (comments and docstrings excluded), the one the models of this
    property were written against and validated against: harness/translate/srcdigest_t.py, Src/Pin_*.v *)
